@@ -27,8 +27,17 @@ LEVEL_TEXT = ('Coq theorems over an executable Gallina model of shlex.read_token
               'the text of every tree of bare words (any depth) tokenises to exactly that tree, unbalanced brackets give SyntaxError, and with nesting off brackets are literal; the configuration used for a message is the one set for its channel/network (model of getSpecific/conf.get), so an empty brackets setting for a channel makes brackets literal there; in any session of calls and in-place edits of earlier results every call observes tokenize_at of its own configuration and text.  Tied to the source by regenerated tables '
               '(separators, whitespace, bracket/quote sets, except clause, codec chain and the nonAscii guard of _handleToken, that tokenize() returns the fresh result of the Tokenizer and refers to no module-level state, the argument order of the brackets/pipeSyntax/quotes lookups in tokenize() against the signatures of conf.get and Value.getSpecific) and a differential run against the real tokenizer and codecs on every check.')
 LEVEL_NOTE = ('Trusted: Coq kernel, gen_tables.py, extraction + OCaml driver, the Python harness, CPython codecs (modelled, differentially tested). '
-              'Python code is modelled, not verified.  Not proved, explored only: escape spellings other than minimal quoting and dqrepr (\\xHH, octal, \\uHHHH of ASCII text); quoted '
-              'arguments inside nested commands mixed with bare command words; renderings with other spacing than one space.')
+              'Python code is modelled, not verified.  The model pictures shlex faithfully only for configurations that can exist (cfg_valid; theorem C13_model_domain, '
+              'validators exercised live): a quote set containing the letter a would collide with the name of the word state of shlex.  Observation point is the '
+              'return/exception of callbacks.tokenize: what the callers do with it is NOT modelled -- Owner.doPrivmsg, Utilities.apply/let, Conditional and Alias report a '
+              'SyntaxError to the user (probed live, both settings of reply.error.detailed); MessageParser tokenises outside its try block and Scheduler inside the scheduled '
+              'function, so there a syntax error is only logged (Scheduler also keeps the dead event in its table); Autocomplete joins the tokens as if flat (TypeError on '
+              'a completion request containing brackets, SyntaxError on an open quote: logged by the firewall, no completion sent).  Not modelled: the CPython recursion limit '
+              '(RecursionError beyond about 900 nested brackets; a 512-byte line allows 250, but MessageParser can lengthen a command by repeating $1), the warning filter '
+              '(under -W error the DeprecationWarning of an invalid escape such as "\\q" escapes tokenize), Alias/Aka tokenising their stored command with the GLOBAL configuration '
+              '(no channel/network is passed), MoobotFactoids.OptionList (a second user of supybot.shlex with quotes and whitespace empty: probed exhaustively to length 6, no failure).  '
+              'Explored, not proved: escape spellings other than minimal quoting and dqrepr (\\xHH, octal, \\uHHHH of ASCII text); quoted arguments inside nested commands mixed '
+              'with bare command words; renderings with other spacing than one space.')
 TECHNIQUE = 'Coq proof (induction over strings/token lists, invariants of the lexer machine) + regenerated tables + extracted-model differential correspondence'
 EXPLANATION = 'C13: tokenizer model of src/shlex.py + src/callbacks.py Tokenizer + codecs; theorems in coq/C13/Props.v'
 
@@ -499,6 +508,60 @@ def gen_lookups(ctx, rng):
                     's': rng.choice([LOOK_TEXT, 'a [b <c {d (e)}>] "f" | g', rand_text(rng)])})
     return out
 
+
+# ---------------------------------------------------------------- which configurations can exist
+PROPERTY_BRACKETS = ('', '[]', '<>', '{}', '()')      # the property's quantifier: "for all bracket styles ([] <> {} ())"
+PROPERTY_QUOTE_CHARS = '"\'`'                          # "... quote sets": conf.ValidQuotes' documented characters
+
+
+def gen_domain(ctx, rng):
+    vals = ['', '[]', '<>', '{}', '()', '"', "'", '`', '"\'', '`"\'', '""', 'a', '"a', ' ', '" ', '\\', '[', ']', '[]]', '][', '[)', '||',
+            '  ', 'ab', '\u00ab\u00bb', '[]\n', ' []', '|', '\n', '\u00e9', '"[', '\x00', '"\x00', 'A', '"\t', '(]', '<>>', '\uff3b\uff3d', '\u201c']
+    alpha = ['"', "'", '`', 'a', ' ', '\\', '[', ']', '<', '>', '{', '}', '(', ')', '|', '\n', '\u00e9']
+    for _ in range(ctx.n(150)):
+        vals.append(''.join(rng.choice(alpha) for _ in range(rng.randint(1, 3))))
+    return [{'op': 'domain', 'value': v} for v in vals]
+
+
+def _accepts(var, v, how):
+    """does the registry accept v for var -- through setValue (Python API), set (config command, registry file) or on a channel-specific child"""
+    old = var()
+    try:
+        if how == 'setValue':
+            var.setValue(v)
+        elif how == 'set':
+            var.set(v)
+        else:
+            _live()
+            try:
+                child = var.get(CHAN_OK)
+                child.set(v)
+                return True, child()
+            finally:
+                _clear_specific(var)
+        return True, var()
+    except Exception:
+        return False, None
+    finally:
+        var.setValue(old)
+        _state['cfg'] = None
+
+
+def check_domain(ctx, inp, mo):
+    """every value conf accepts for brackets / quotes lies inside the configuration space the property quantifies over
+    (and the theorems are stated for: cfg_valid); the model predicates agree with the real validators"""
+    c = _mods()['conf'].supybot.commands
+    v = inp['value']
+    for how in ('setValue', 'set', 'child'):
+        okb, stored = _accepts(c.nested.brackets, v, how)
+        okq, storedq = _accepts(c.quotes, v, how)
+        if okb and (stored not in PROPERTY_BRACKETS):
+            ctx.fail(inp, 'supybot.commands.nested.brackets accepts %r (stored %r) via %s: not one of the bracket styles' % (v, stored, how))
+        if okq and any(ch not in PROPERTY_QUOTE_CHARS for ch in storedq):
+            ctx.fail(inp, 'supybot.commands.quotes accepts %r (stored %r) via %s: a quote set with other characters' % (v, storedq, how))
+        if mo is not None and how == 'setValue' and [int(okb), int(okq)] != [int(bool(mo[0])), int(bool(mo[1]))]:
+            ctx.disagree(inp, [int(bool(mo[0])), int(bool(mo[1]))], [int(okb), int(okq)], 'conf validators (brackets, quotes) vs brackets_valid/quotes_valid')
+
 # ---------------------------------------------------------------- generators
 QUOTES = ['"', '"', '"\'', '', '`"\'', "'"]
 
@@ -572,6 +635,11 @@ ARG_CORPUS = [['\u00c2\u0080'], ['\u00c3\u00a9'], ['a', 'b c'], ['"', '\\', '\\"
 
 def run(ctx):
     rng = ctx.rng
+    doms = gen_domain(ctx, rng)
+    do = ctx.model([[10, [d['value'], d['value']]] for d in doms])
+    for d, mo in zip(doms, do):
+        ctx.case('config-domain', d, nontrivial=bool(d['value']))
+        check_domain(ctx, d, mo)
     lookups = gen_lookups(ctx, rng)
     lo = ctx.model([lookup_wire(inp) for inp in lookups])
     for inp, mo in zip(lookups, lo):
@@ -756,6 +824,8 @@ def replay(ctx, inp):
         check_nested(sub, inp)
     elif op == 'lookup':
         check_lookup(sub, inp, None)
+    elif op == 'domain':
+        check_domain(sub, inp, None)
     return sub.failures[0]['detail'] if sub.failures else None
 
 
